@@ -1,11 +1,18 @@
 #!/bin/bash
 # tools/seedbatch.sh <root> <ID>... : evaluates <root>/<ID>/SEED/{A,B,C} with seedcheck and prints compact results
+# (properties in parallel, 4 at a time; the variants of one property one after the other)
 ROOT=$1; shift
-for id in "$@"; do for v in A B C; do
-  sd=$ROOT/$id/SEED/$v; [ -f $sd/patch.diff ] || continue
-  out=$(tools/seedcheck.sh $id $sd 2>&1)
-  suite=$(echo "$out" | grep -c "^FAIL\|^--- FAIL" )
-  res=$(echo "$out" | grep RESULT)
-  key=$(echo "$out" | grep "key=" | head -2 | cut -c1-220 | tr '\n' ' ')
-  echo "$id/$v $res suite_or_demo_fail_lines=$suite :: $key"
-done; done
+cd "$(dirname "$0")/.."
+one() {
+  ROOT=$1; id=$2
+  for v in A B C; do
+    sd=$ROOT/$id/SEED/$v; [ -f $sd/patch.diff ] || continue
+    out=$(tools/seedcheck.sh $id $sd 2>&1)
+    suite=$(echo "$out" | grep -c "^FAIL\|^--- FAIL" )
+    res=$(echo "$out" | grep RESULT)
+    key=$(echo "$out" | grep "key=" | head -2 | cut -c1-220 | tr '\n' ' ')
+    echo "$id/$v $res suite_or_demo_fail_lines=$suite :: $key"
+  done
+}
+export -f one
+printf '%s\n' "$@" | xargs -P ${SEED_PAR:-4} -I{} bash -c "one $ROOT {}"
